@@ -372,3 +372,30 @@ PROPS["C20"] = {
                      {"mode": "rc", "cases": 15000, "max_size": 100}],
     },
 }
+
+PROPS["C12"] = {
+    "manifest": {
+        "level_text": ("Fault enumeration on stored bytes: generated tables (all algorithms, 1-6+ blocks) x corruptions CRC-32C is guaranteed to "
+                       "detect (1, 2 or 3 bit flips; bursts of 2..32 bits with both end bits set) aimed at any data block or the index "
+                       "block, inside the checksum field or the stored payload. Observed in forked children: iteration with "
+                       "verify_checksums may return only the entries of the blocks before the damaged one and must then stop abnormally; "
+                       "mtbl_source_get of a key in the damaged block returns nothing; mtbl_verify (linked-in main, and the real binary on a "
+                       "sample) must not print OK / exit 0; the intact file verifies and reads completely. Thorough tier additionally flips "
+                       "EVERY single bit of every block of three small files (exhaustive)."),
+        "level_note": TRUST + " Only patterns within the CRC's guaranteed detection class are injected, and never the length prefix.",
+        "technique": "fault injection/enumeration (bit flips within CRC-32C's guaranteed detection class) + " + PBT,
+    },
+    "src": "props/C12.cpp", "tools": True, "tool_bins": True,
+    "level": "fault_enumeration",
+    "rule": ("mode rc: case = (table, config, target block, flip pattern); every case is non-trivial (a damaged block must be refused on "
+             "three observation paths). mode allbits: each single-bit flip of the checksum+payload region of every block of three fixed "
+             "files is one evaluation (distinct by construction; the quick tier takes every 16th bit)."),
+    "expect_tags": ["index_block_damaged", "last_data_block_damaged", "data_block_damaged", "burst", "flips_1", "flips_2", "flips_3",
+                    "multi_block", "intact_checked"],
+    "assumptions": TABLE_ASSUME,
+    "tiers": {
+        "quick": [{"mode": "allbits", "kv": {"files": 3, "stride": 16}}, {"mode": "rc", "cases": 250, "max_size": 100}],
+        "thorough": [{"mode": "allbits", "kv": {"files": 3, "stride": 1}, "exhaustive": True, "note": "every single-bit flip of every block of 3 files"},
+                     {"mode": "rc", "cases": 6000, "max_size": 100}],
+    },
+}
